@@ -2589,3 +2589,288 @@ def check_no_integer_powers_of_inputs(ctx, rule: str, module_paths, floor: int =
                               'as int16) the power wraps around silently and the formula returns garbage; divide / convert to float first'
                               % (norm(node)[:50], p), fn.path, node.lineno, operand='integer-power:' + p)
     return n
+
+
+# ---------------------------------------------------------------------------------------------------------------
+def unprotected_restores(fn: FuncInfo):
+    """(restore statement, what): the save / change / restore idiom on shared state WITHOUT try/finally:
+
+        old = X.attr            (or  old = X.pop(key))
+        X.attr = <temporary>    (implicit for pop)
+        ... a call that may raise ...
+        X.attr = old            (or  X[key] = old)      <- not in a `finally:` block
+
+    When the call in the middle raises, the temporary value stays behind (a shared channel object keeps noise_var = None, an
+    accumulator loses an entry)."""
+    stmts = stmts_in_order(fn)
+    in_finally = set()
+    for n in ast.walk(fn.node):
+        if isinstance(n, ast.Try):
+            for s in n.finalbody:
+                for x in ast.walk(s):
+                    in_finally.add(id(x))
+    order = {id(s): i for i, s in enumerate(stmts)}
+    for s in stmts:
+        if not (isinstance(s, ast.Assign) and len(s.targets) == 1 and isinstance(s.targets[0], ast.Name)):
+            continue
+        old = s.targets[0].id
+        v = s.value
+        slot = None
+        popped = False
+        if isinstance(v, ast.Attribute) and not (isinstance(v.value, ast.Name) and v.value.id in ('np', 'math')):
+            slot = norm(v)
+        elif isinstance(v, ast.Call) and isinstance(v.func, ast.Attribute) and v.func.attr == 'pop' and len(v.args) >= 1:
+            slot = '%s[%s]' % (norm(v.func.value), norm(v.args[0]))
+            popped = True
+        if slot is None:
+            continue
+        i0 = order[id(s)]
+        changed = popped
+        i_change = i0 if popped else None
+        for t in stmts[i0 + 1:]:
+            if isinstance(t, ast.Assign) and len(t.targets) == 1 and norm(t.targets[0]) == slot:
+                if isinstance(t.value, ast.Name) and t.value.id == old:
+                    if changed and id(t) not in in_finally:
+                        mid = [m for m in stmts[i_change + 1:order[id(t)]]
+                               if any(isinstance(x, ast.Call) for x in ast.walk(m)) and not isinstance(m, (ast.If, ast.For, ast.While, ast.With, ast.Try))]
+                        if mid:
+                            yield t, '%s is set to a temporary value, `%s` runs, and only then `%s` puts the saved value back - outside any ' \
+                                     '`finally:`' % (slot, norm(mid[0])[:50], norm(t)[:50])
+                    break
+                elif not changed:
+                    changed = True
+                    i_change = order[id(t)]
+                else:
+                    break
+            elif any(isinstance(x, ast.Name) and isinstance(x.ctx, ast.Store) and x.id == old for x in ast.walk(t)):
+                break
+
+
+def check_restores_protected(ctx, rule: str, module_paths, floor: int = 0) -> int:
+    ctx.rule(rule, 'state that is changed temporarily (saved in a local, overwritten, restored after a computation) is restored in a '
+                   '`finally:` block: an exception in the computation must not leave the temporary value behind', floor=floor)
+    M = ctx.model
+    n = 0
+    for path in module_paths:
+        mod = M.module(path)
+        fns = [f for c in mod.classes.values() for f in list(c.methods.values()) + list(c.getters.values()) + list(c.setters.values())]
+        fns += list(mod.functions.values())
+        for fn in fns:
+            ctx.instance(rule, fn.qualname)
+            n += 1
+            hits = list(unprotected_restores(fn))
+            ctx.obligation(rule, fn.qualname, not hits, {'restores': [h[1][:120] for h in hits]} if hits else None,
+                           nontrivial=any(isinstance(x, ast.Try) and x.finalbody for x in walk_no_nested(fn.node)))
+            for st, what in hits[:1]:
+                ctx.violation(rule, fn.qualname, what + ': if that call raises, the object keeps the temporary value', fn.path, st.lineno,
+                              operand='restore-not-in-finally')
+    return n
+
+
+# ---------------------------------------------------------------------------------------------------------------
+def containers_modified_while_iterated(fn: FuncInfo):
+    """(node, container): `for x in C:` whose body removes from / inserts into the very container C (C.remove, C.pop, C.append,
+    C.insert, del C[..], C.clear, C.discard, C.add, C.update): list iteration then skips elements, dict / set iteration raises."""
+    MUT = {'remove', 'pop', 'append', 'insert', 'clear', 'discard', 'add', 'update', 'extend', 'popitem'}
+    for n in walk_no_nested(fn.node):
+        if not isinstance(n, ast.For):
+            continue
+        it = n.iter
+        if isinstance(it, ast.Call) and isinstance(it.func, ast.Attribute) and it.func.attr in ('keys', 'values', 'items') and not it.args:
+            it = it.func.value
+        if isinstance(it, ast.Call) and norm(it.func) in ('enumerate', 'reversed') and it.args:
+            it = it.args[0]
+        if not isinstance(it, (ast.Name, ast.Attribute)):
+            continue
+        c = norm(it)
+        for st in n.body:
+            for x in ast.walk(st):
+                if isinstance(x, ast.Call) and isinstance(x.func, ast.Attribute) and x.func.attr in MUT and norm(x.func.value) == c:
+                    # `break` right after the mutation ends the iteration: fine
+                    if not _followed_by_exit(n.body, x):
+                        yield x, c
+                elif isinstance(x, ast.Delete) and any(isinstance(t, ast.Subscript) and norm(t.value) == c for t in x.targets):
+                    if not _followed_by_exit(n.body, x):
+                        yield x, c
+
+
+def _followed_by_exit(body, node) -> bool:
+    """the statement containing `node` is directly followed (in its own block) by break / return / raise"""
+    def rec(stmts):
+        for i, s in enumerate(stmts):
+            if any(x is node for x in ast.walk(s)):
+                if not isinstance(s, (ast.If, ast.For, ast.While, ast.With, ast.Try)):
+                    return i + 1 < len(stmts) and isinstance(stmts[i + 1], (ast.Break, ast.Return, ast.Raise))
+                for fld in ('body', 'orelse', 'finalbody'):
+                    b = getattr(s, fld, None)
+                    if isinstance(b, list) and b and any(x is node for y in b for x in ast.walk(y)):
+                        return rec(b)
+        return False
+    return rec(body)
+
+
+def check_no_mutation_while_iterating(ctx, rule: str, module_paths, floor: int = 0) -> int:
+    ctx.rule(rule, 'no loop removes from / inserts into the very container it iterates over (a list then skips every second '
+                   'element; a dict or set raises)', floor=floor)
+    M = ctx.model
+    n = 0
+    for path in module_paths:
+        mod = M.module(path)
+        fns = [f for c in mod.classes.values() for f in list(c.methods.values()) + list(c.getters.values()) + list(c.setters.values())]
+        fns += list(mod.functions.values())
+        for fn in fns:
+            if not any(isinstance(x, ast.For) for x in walk_no_nested(fn.node)):
+                continue
+            ctx.instance(rule, fn.qualname)
+            n += 1
+            hits = list(containers_modified_while_iterated(fn))
+            ctx.obligation(rule, fn.qualname, not hits, {'mutations': [norm(h[0])[:60] for h in hits]} if hits else None)
+            for node, c in hits[:1]:
+                ctx.violation(rule, fn.qualname, '`%s` changes `%s` inside the loop that iterates over it: the iteration skips the element that '
+                              'moves into the freed position (every second one when each is removed)' % (norm(node)[:50], c),
+                              fn.path, node.lineno, operand='mutated-while-iterated:' + c)
+    return n
+
+
+# ---------------------------------------------------------------------------------------------------------------
+def cyclic_resizes(fn: FuncInfo):
+    """(node): np.resize(a, shape) / a.resize(shape) - it REPEATS the flattened data cyclically to fill the new shape; it is not
+    broadcasting (np.broadcast_to / np.broadcast_arrays), with which it agrees only when the shapes already match."""
+    for n in walk_no_nested(fn.node):
+        if isinstance(n, ast.Call) and norm(n.func) in ('np.resize', 'numpy.resize'):
+            yield n
+
+
+def check_no_cyclic_resize(ctx, rule: str, module_paths, floor: int = 0) -> int:
+    ctx.rule(rule, 'np.resize (cyclic repetition of the flattened data) is never used to bring an operand to the shape of another: that is '
+                   'what broadcasting does, and the two agree only for equal shapes', floor=floor)
+    M = ctx.model
+    n = 0
+    for path in module_paths:
+        mod = M.module(path)
+        fns = [f for c in mod.classes.values() for f in list(c.methods.values())] + list(mod.functions.values())
+        for fn in fns:
+            ctx.instance(rule, fn.qualname)
+            n += 1
+            hits = list(cyclic_resizes(fn))
+            ctx.obligation(rule, fn.qualname, not hits, {'resizes': [norm(h)[:60] for h in hits]} if hits else None,
+                           nontrivial=any(isinstance(x, ast.Call) and 'broadcast' in norm(x.func) for x in walk_no_nested(fn.node)))
+            for node in hits[:1]:
+                ctx.violation(rule, fn.qualname, '`%s` repeats the flattened values cyclically: a per-row (column-vector) operand is scattered over '
+                              'the whole grid instead of being broadcast along its axis' % norm(node)[:60], fn.path, node.lineno, operand='np.resize')
+    return n
+
+
+# ---------------------------------------------------------------------------------------------------------------
+def check_range_guard(ctx, rule: str, fn: FuncInfo, var: str, landmarks, expected: dict, kind: str, what: str) -> None:
+    """The tests that guard `var` in `fn` (kind 'raise': the `if` statements mentioning var whose body ends in `raise`, taken together;
+    kind 'accept': the one `if` mentioning var whose body does the work) are decided for every order position of var relative to the
+    landmarks (astutil.order_truth_table) and compared with `expected` {position: rejected / accepted}.  A guard that looks at var
+    through anything but comparisons with the landmarks is cannot-tell."""
+    from .astutil import order_truth_table
+    construct = '%s:%s' % (fn.qualname, var)
+    ctx.instance(rule, construct)
+    ifs = [n for n in walk_no_nested(fn.node) if isinstance(n, ast.If) and any(norm(x) == var for x in ast.walk(n.test))]
+    if kind == 'raise':
+        ifs = [n for n in ifs if n.body and isinstance(n.body[-1], ast.Raise)]
+    else:
+        ifs = [n for n in ifs if not (n.body and isinstance(n.body[-1], ast.Raise))]
+    if not ifs or (kind == 'accept' and len(ifs) != 1):
+        ctx.error('%s: %s has %d guard(s) on `%s` (cannot tell)' % (rule, fn.qualname, len(ifs), var))
+    tables = [order_truth_table(n.test, var, landmarks) for n in ifs]
+    if any(t is None for t in tables):
+        bad = [norm(n.test)[:70] for n, t in zip(ifs, tables) if t is None]
+        ctx.error('%s: the guard `%s` of %s looks at `%s` through more than comparisons with %s (cannot tell)' % (rule, bad[0], fn.qualname, var, landmarks))
+    got = {pos: any(t[pos] for t in tables) for pos in tables[0]}
+    diff = {pos: (got[pos], exp) for pos, exp in expected.items() if got.get(pos) != exp}
+    ctx.obligation(rule, construct, not diff, {'guards': [norm(n.test)[:80] for n in ifs], 'table': got, 'expected': expected})
+    if diff:
+        pos = sorted(diff)[0]
+        ctx.violation(rule, fn.qualname, 'the guard `%s` %s `%s` %s, but %s' % (
+            ' / '.join(norm(n.test)[:60] for n in ifs), 'rejects' if (kind == 'raise') == diff[pos][0] else 'accepts', var, pos, what),
+            fn.path, ifs[0].lineno, operand='limit:' + pos.replace(' ', '-'))
+
+
+# ---------------------------------------------------------------------------------------------------------------
+def per_axis_self_normalisations(fn: FuncInfo):
+    """(node, X): a matrix divided by the VECTOR of its own per-column / per-row norms (`X / np.linalg.norm(X, axis=0)`, `X /= ...`):
+    every column gets unit norm, so the matrix has Frobenius norm sqrt(number of columns) - it is normalised only when one column is left."""
+    def axis_norm_of(e):
+        if isinstance(e, ast.Call) and norm(e.func) in ('np.linalg.norm', 'numpy.linalg.norm', 'linalg.norm') and e.args:
+            ax = [k.value for k in e.keywords if k.arg == 'axis'] + (list(e.args[2:3]))        # norm(x, ord, axis)
+            if ax and not (isinstance(ax[0], ast.Constant) and ax[0].value is None):
+                return norm(e.args[0])
+        return None
+    for n in walk_no_nested(fn.node):
+        if isinstance(n, ast.AugAssign) and isinstance(n.op, ast.Div):
+            a = axis_norm_of(n.value)
+            if a is not None and a == norm(n.target):
+                yield n, a
+        elif isinstance(n, ast.BinOp) and isinstance(n.op, ast.Div):
+            a = axis_norm_of(n.right)
+            if a is not None and a == norm(n.left):
+                yield n, a
+
+
+def check_no_per_axis_normalisation(ctx, rule: str, module_paths, floor: int = 0) -> int:
+    ctx.rule(rule, 'a precoder / filter matrix is normalised by ONE norm of the whole matrix (Frobenius), never by the vector of its own '
+                   'per-column or per-row norms (that gives norm sqrt(n), right only when a single stream is left)', floor=floor)
+    M = ctx.model
+    n = 0
+    for path in module_paths:
+        mod = M.module(path)
+        fns = [f for c in mod.classes.values() for f in list(c.methods.values())] + list(mod.functions.values())
+        for fn in fns:
+            if not any(isinstance(x, ast.Call) and norm(x.func).endswith('linalg.norm') for x in walk_no_nested(fn.node)):
+                continue
+            ctx.instance(rule, fn.qualname)
+            n += 1
+            hits = list(per_axis_self_normalisations(fn))
+            ctx.obligation(rule, fn.qualname, not hits, {'normalisations': [norm(h[0])[:70] for h in hits]} if hits else None)
+            for node, x in hits[:1]:
+                ctx.violation(rule, fn.qualname, '`%s` divides `%s` by the vector of its own per-axis norms: each column gets unit norm and the matrix '
+                              'norm sqrt(number of columns), so a precoder with two or more streams is no longer unit norm (and carries n times its '
+                              'power once scaled)' % (norm(node)[:70], x), fn.path, node.lineno, operand='per-axis-norm:' + x)
+    return n
+
+
+# ---------------------------------------------------------------------------------------------------------------
+def memory_order_flattens(fn: FuncInfo):
+    """(node): x.ravel(order='K' / 'A' / 'F'), x.flatten(order=..), np.ravel(x, order=..), x.reshape(.., order='A' / 'F'): the elements
+    come out in MEMORY (or column-major) order.  Per-element results computed on such a vector and put back with a C-order reshape land
+    at permuted positions for every input that is not C-contiguous (a transposed view, a Fortran array)."""
+    for n in walk_no_nested(fn.node):
+        if not isinstance(n, ast.Call):
+            continue
+        f = n.func
+        is_flat = (isinstance(f, ast.Attribute) and f.attr in ('ravel', 'flatten', 'reshape')) or norm(f) in ('np.ravel', 'np.reshape')
+        if not is_flat:
+            continue
+        orders = [k.value for k in n.keywords if k.arg == 'order']
+        if isinstance(f, ast.Attribute) and f.attr in ('ravel', 'flatten') and not (isinstance(f.value, ast.Name) and f.value.id in ('np', 'numpy')) \
+                and len(n.args) == 1:
+            orders.append(n.args[0])           # x.ravel('K')
+        for o in orders:
+            if isinstance(o, ast.Constant) and o.value in ('K', 'A', 'F', 'k', 'a', 'f'):
+                yield n
+
+
+def check_no_memory_order_flatten(ctx, rule: str, module_paths, floor: int = 0) -> int:
+    ctx.rule(rule, 'arrays are flattened in C (index) order only: a memory-order / column-major flatten (order=\'K\', \'A\', \'F\') followed by '
+                   'per-element work and a C-order reshape permutes the results of every non-C-contiguous input', floor=floor)
+    M = ctx.model
+    n = 0
+    for path in module_paths:
+        mod = M.module(path)
+        fns = [f for c in mod.classes.values() for f in list(c.methods.values())] + list(mod.functions.values())
+        for fn in fns:
+            ctx.instance(rule, fn.qualname)
+            n += 1
+            hits = list(memory_order_flattens(fn))
+            ctx.obligation(rule, fn.qualname, not hits, {'flattens': [norm(h)[:60] for h in hits]} if hits else None,
+                           nontrivial=any(isinstance(x, ast.Attribute) and x.attr in ('ravel', 'flatten', 'reshape') for x in ast.walk(fn.node)))
+            for node in hits[:1]:
+                ctx.violation(rule, fn.qualname, '`%s` takes the elements in memory / column-major order: for a transposed view or a Fortran-ordered '
+                              'array the per-element results are put back at permuted positions' % norm(node)[:60], fn.path, node.lineno,
+                              operand='memory-order-flatten')
+    return n
